@@ -79,8 +79,15 @@ CONSTANTS
   PodGC,         \* BOOLEAN: the pod object of a concluded job may be removed
   TwoPhase,      \* BOOLEAN: job controllers that list a non-terminal condition first (same time stamp)
   Lost,          \* BOOLEAN: node lost (pod phase Unknown, then replaced)
+  Idle,          \* BOOLEAN: the job shows active = 0 without a condition for a while after its pod ended
   Interrupts,    \* BOOLEAN: ^C inside wait()
-  MapSlice       \* which part of the grid of part "map"
+  MapSlice,      \* which part of the grid of part "map"
+  \* the findings: TRUE = the code as found, FALSE = the repaired code (out/proposed_fixes/G06_*.diff)
+  NodesFatal,          \* a failed request in _get_nodes() fails the task
+  DeleteConnEscapes,   \* a connection error at the deletion escapes from terminate()
+  KillForgotten,       \* terminate() gives up (request failed / two pods) and nobody retries
+  CompleteNeedsPod,    \* a Complete job is only believed when its pod object can still be listed
+  FirstConditionWins   \* of several job conditions with equal time stamps the first listed one decides
 
 ASSUME Part \in {"run", "map", "exit"}
 
@@ -129,7 +136,7 @@ RunOutcomes == {"ok", "err", "oom", "term143", "sig15", "deadline", "evicted", "
 (* variables                                                               *)
 (***************************************************************************)
 VARIABLES
-  cl,          \* the cluster: [job, pods, nd, ok, ran]   job: "none" "new" "active" "complete" "failed" "other" "otherok" "gone"
+  cl,          \* the cluster: [job, pods, nd, ok, ran]   job: "none" "new" "active" "idle" "complete" "failed" "other" "otherok" "gone"
   created,     \* the task object exists
   conf,        \* [gc, archive, cache]
   last,        \* lastReportedState
@@ -143,6 +150,7 @@ VARIABLES
   done,        \* the polling pipeline completed (task_completed ran)
   terminated,  \* self.terminated
   called,      \* _terminate_called_when is not None
+  req,         \* (repaired code only) a kill was requested
   archived,    \* how many times the objects were archived
   ndel,        \* successful delete requests
   why,         \* ghost: what made the state final
@@ -163,12 +171,12 @@ RetCode == IF IsAlive THEN 0 - 1 ELSE last.rc
 ExitReason == ExitReasonOf(last, IsAlive, terminated)
 Pub == [alive |-> IsAlive, rc |-> RetCode, reason |-> ExitReason, status |-> last.st]
 
-tvars == <<created, conf, last, started, pull, errs, age, off, cached, closed, done, terminated, called, archived, ndel, why>>
+tvars == <<created, conf, last, started, pull, errs, age, off, cached, closed, done, terminated, called, req, archived, ndel, why>>
 vars == <<cl, tvars, obs, cnt, case, res>>
 
 TS == [cl |-> [job |-> cl.job, pods |-> cl.pods], created |-> created, conf |-> conf, last |-> last, started |-> started, pull |-> pull, errs |-> errs,
        age |-> age, off |-> off, cached |-> cached, closed |-> closed, done |-> done, terminated |-> terminated, called |-> called,
-       archived |-> archived, g |-> [nd |-> cl.nd, ok |-> cl.ok, ran |-> cl.ran, ndel |-> ndel, why |-> why], cnt |-> cnt,
+       req |-> req, archived |-> archived, g |-> [nd |-> cl.nd, ok |-> cl.ok, ran |-> cl.ran, ndel |-> ndel, why |-> why], cnt |-> cnt,
        pub |-> Pub]
 
 NoScript == [from |-> 99, kind |-> "ok", midn |-> 0, midcl |-> [job |-> "none", pods |-> <<>>, nd |-> 0, ok |-> FALSE, ran |-> FALSE]]
@@ -235,12 +243,12 @@ PodEval(c, p) ==
 \* _get_last_pod_state
 GLP(c) ==
   LET t == Try(c, "list_pods", 3) IN
-  IF t.r = "conn" THEN [c |-> t.c, x |-> ExcX]
-  ELSE IF t.r = "api" THEN LET u == Unavail(t.c) IN [c |-> IF u.out THEN WithWhy(u.c, "outage") ELSE u.c, x |-> u.x]
+  IF t.r = "conn" THEN [c |-> t.c, x |-> ExcX, found |-> TRUE]
+  ELSE IF t.r = "api" THEN LET u == Unavail(t.c) IN [c |-> IF u.out THEN WithWhy(u.c, "outage") ELSE u.c, x |-> u.x, found |-> TRUE]
   ELSE LET ps == t.view.pods IN
-    IF Len(ps) > 1 THEN [c |-> t.c, x |-> NoneX]
-    ELSE IF Len(ps) = 1 THEN PodEval(t.c, ps[1])
-    ELSE [c |-> t.c, x |-> IF t.c.last.rs # "none" THEN t.c.last ELSE IF t.c.started THEN Failed("Cancelled") ELSE Waiting]
+    IF Len(ps) > 1 THEN [c |-> t.c, x |-> NoneX, found |-> TRUE]
+    ELSE IF Len(ps) = 1 THEN LET e == PodEval(t.c, ps[1]) IN [c |-> e.c, x |-> e.x, found |-> TRUE]
+    ELSE [c |-> t.c, x |-> IF t.c.last.rs # "none" THEN t.c.last ELSE IF t.c.started THEN Failed("Cancelled") ELSE Waiting, found |-> FALSE]
 
 \* _getTaskState (through the wrapper that turns an exception into None)
 GTS(c) ==
@@ -250,11 +258,12 @@ GTS(c) ==
     ELSE IF t.r = "api" THEN LET u == Unavail(t.c) IN [c |-> IF u.out THEN WithWhy(u.c, "outage") ELSE u.c, x |-> u.x]
     ELSE IF t.view.job \in Gone THEN [c |-> WithWhy(t.c, "notfound"), x |-> Failed("Cancelled")]
     ELSE LET g == GLP([t.c EXCEPT !.age = NoSince])
-             jv == t.view.job
+             jv == IF FirstConditionWins THEN t.view.job ELSE IF t.view.job = "other" THEN "failed" ELSE IF t.view.job = "otherok" THEN "complete" ELSE t.view.job
              cw == WithWhy(g.c, "cluster")
          IN
       IF g.x.k # "val" THEN [c |-> g.c, x |-> NoneX]
       ELSE IF g.c.pull < 0 THEN [c |-> WithWhy(g.c, "pull"), x |-> Failed("SubmissionFailed")]
+      ELSE IF jv = "complete" /\ ~CompleteNeedsPod /\ ~g.found THEN [c |-> cw, x |-> T("finished", "Success", 0)]
       ELSE IF jv = "complete" THEN [c |-> IF Final(g.x.st) THEN cw ELSE g.c, x |-> g.x]
       ELSE IF jv = "failed" THEN (IF ~g.c.started THEN [c |-> cw, x |-> Failed("SubmissionFailed")]
                                   ELSE IF g.x.rs # "none" THEN [c |-> cw, x |-> g.x] ELSE [c |-> g.c, x |-> Running])
@@ -294,7 +303,9 @@ RECURSIVE EmitR(_), CommitR(_, _), TerminateR(_), CompletedR(_)
 EmitR(c) ==
   IF c.done THEN c
   ELSE IF ~Alive(c) THEN CompletedR([c EXCEPT !.done = TRUE])
-  ELSE LET g == GTS(c) IN CommitR(g.c, g.x)
+  ELSE LET c0 == IF ~KillForgotten /\ c.req /\ ~c.terminated /\ ~c.interm /\ ~Final(c.last.st) THEN TerminateR(c) ELSE c   \* repaired: the poll retries the deletion
+           g == GTS(c0)
+       IN IF c0.done THEN c0 ELSE CommitR(g.c, g.x)
 
 \* SetLastReportedState
 CommitR(c, x) ==
@@ -306,8 +317,8 @@ CommitR(c, x) ==
       needNodes == v.st \in {"finished", "running"} /\ ~c1.cached /\ c1.cache
       tn == Try(c1, "list_pods", 3)
   IN
-  IF needNodes /\ tn.r # "ok" THEN [tn.c EXCEPT !.w = "nodes", !.last = Failed(IF tn.r = "api" THEN "SystemIssue" ELSE "UnknownIssue")]
-  ELSE LET c2 == IF needNodes THEN [tn.c EXCEPT !.cached = TRUE] ELSE c1 IN
+  IF needNodes /\ tn.r # "ok" /\ NodesFatal THEN [tn.c EXCEPT !.w = "nodes", !.last = Failed(IF tn.r = "api" THEN "SystemIssue" ELSE "UnknownIssue")]
+  ELSE LET c2 == IF needNodes THEN (IF tn.r = "ok" THEN [tn.c EXCEPT !.cached = TRUE] ELSE tn.c) ELSE c1 IN
     IF ~Final(v.st) THEN c2
     ELSE LET c3 == LogsR(c2, v.rs, 3)
              c5 == EmitR([c3 EXCEPT !.closed = TRUE])
@@ -319,9 +330,7 @@ CompletedR(c) ==
   IF Pred(c.gc, c.last.st) THEN TerminateR(c1) ELSE c1
 
 \* terminate() = kill()
-TerminateR(c) ==
-  IF c.terminated THEN c
-  ELSE
+TerminateOld(c) ==
   LET c1 == IF ~c.started THEN [GLP(c).c EXCEPT !.w = c.w] ELSE c
       c2 == IF c1.started /\ ~Final(c1.last.st) THEN FetchStdout(c1).c ELSE c1
       g0 == GLP(c2)
@@ -329,21 +338,34 @@ TerminateR(c) ==
   IN IF g.x.k = "none" THEN g.c
      ELSE IF g.x.k = "exc" THEN EmitR(g.c)
      ELSE LET d == Try([g.c EXCEPT !.called = TRUE], "delete_job", 3) IN
-       IF d.r = "conn" THEN [d.c EXCEPT !.exc = "conn"]
+       IF d.r = "conn" /\ DeleteConnEscapes THEN [d.c EXCEPT !.exc = "conn"]
        ELSE IF d.r = "ok" /\ d.view.job \notin Gone
          THEN EmitR([d.c EXCEPT !.terminated = TRUE, !.cl.job = "gone", !.ndel = @ + 1])
        ELSE EmitR([d.c EXCEPT !.called = FALSE])
+\* repaired: the request is remembered, nothing makes it give up before the deletion, the polls retry a failed deletion
+TerminateNew(c) ==
+  IF c.interm THEN [c EXCEPT !.req = TRUE]
+  ELSE
+  LET c0 == [c EXCEPT !.req = TRUE, !.interm = TRUE]
+      c1 == IF ~c0.started THEN [GLP(c0).c EXCEPT !.w = c.w] ELSE c0
+      c2 == IF c1.started /\ ~Final(c1.last.st) THEN FetchStdout(c1).c ELSE c1
+      g == [GLP(c2).c EXCEPT !.w = c.w]
+      d == Try([g EXCEPT !.called = TRUE], "delete_job", 3)
+      e == IF d.r = "ok" /\ d.view.job \notin Gone THEN EmitR([d.c EXCEPT !.terminated = TRUE, !.cl.job = "gone", !.ndel = @ + 1])
+           ELSE EmitR([d.c EXCEPT !.called = FALSE])
+  IN [e EXCEPT !.interm = FALSE]
+TerminateR(c) == IF c.terminated THEN c ELSE IF KillForgotten THEN TerminateOld(c) ELSE TerminateNew(c)
 
 (***************************************************************************)
 (* part "run": the state machine                                           *)
 (***************************************************************************)
 Ctx(f) == [f |-> f, n |-> 0, calls |-> <<>>, exc |-> "none", cl |-> cl, last |-> last, started |-> started, pull |-> pull, errs |-> errs,
            age |-> age, off |-> off, cached |-> cached, closed |-> closed, done |-> done, terminated |-> terminated, called |-> called,
-           archived |-> archived, ndel |-> ndel, w |-> why, gc |-> conf.gc, archive |-> conf.archive, cache |-> conf.cache]
+           req |-> req, interm |-> FALSE, archived |-> archived, ndel |-> ndel, w |-> why, gc |-> conf.gc, archive |-> conf.archive, cache |-> conf.cache]
 
 Assign(c, raised) ==
   /\ cl' = c.cl /\ last' = c.last /\ started' = c.started /\ pull' = c.pull /\ errs' = c.errs /\ age' = c.age /\ off' = c.off
-  /\ cached' = c.cached /\ closed' = c.closed /\ done' = c.done /\ terminated' = c.terminated /\ called' = c.called
+  /\ cached' = c.cached /\ closed' = c.closed /\ done' = c.done /\ terminated' = c.terminated /\ called' = c.called /\ req' = c.req
   /\ archived' = c.archived /\ ndel' = c.ndel /\ why' = IF Final(c.last.st) THEN c.w ELSE "none"
   /\ obs' = [calls |-> c.calls, raised |-> raised]
 
@@ -354,7 +376,7 @@ InitCl == [job |-> "none", pods |-> <<>>, nd |-> 0, ok |-> FALSE, ran |-> FALSE]
 InitRun ==
   /\ cl = InitCl /\ created = FALSE /\ conf = [gc |-> "none", archive |-> "none", cache |-> TRUE]
   /\ last = T("initialising", "none", 0 - 1) /\ started = FALSE /\ pull = PullBudget /\ errs = 0 /\ age = NoSince /\ off = 0
-  /\ cached = FALSE /\ closed = FALSE /\ done = FALSE /\ terminated = FALSE /\ called = FALSE /\ archived = 0 /\ ndel = 0 /\ why = "none"
+  /\ cached = FALSE /\ closed = FALSE /\ done = FALSE /\ terminated = FALSE /\ called = FALSE /\ req = FALSE /\ archived = 0 /\ ndel = 0 /\ why = "none"
   /\ obs = [calls |-> <<>>, raised |-> "none"] /\ cnt = [ticks |-> 0, kills |-> 0, bad |-> 0, mids |-> 0, peeks |-> 0]
   /\ case = <<>> /\ res = <<>>
 
@@ -421,13 +443,14 @@ EnvNext(c) ==
   IN {Note(x) : x \in
      (IF c.job = "new" /\ c.pods = <<>> THEN {[c EXCEPT !.job = "active", !.pods = <<PUnsched>>]} ELSE {})
      \cup (IF one THEN {[c EXCEPT !.pods = <<q>>] : q \in PodNext(p)} ELSE {})
-     \cup (IF one /\ c.job = "active" /\ TerminalPod(p)
+     \cup (IF one /\ c.job = "active" /\ TerminalPod(p) /\ Idle THEN {[c EXCEPT !.job = "idle"]} ELSE {})    \* active = 0, no condition yet
+     \cup (IF one /\ c.job \in {"active", "idle"} /\ TerminalPod(p)
            THEN {[c EXCEPT !.job = IF p.ph = "Succeeded" THEN (IF TwoPhase THEN "otherok" ELSE "complete") ELSE (IF TwoPhase THEN "other" ELSE "failed")]} ELSE {})
      \cup (IF one /\ c.nd < MaxDel /\ c.job = "active" /\ ~TerminalPod(p) THEN {[c EXCEPT !.pods = <<p, PUnsched>>, !.nd = @ + 1]} ELSE {})
      \cup (IF one /\ PodGC /\ c.job \in {"complete", "failed"} THEN {[c EXCEPT !.pods = <<>>]} ELSE {})
      \cup (IF Len(c.pods) = 2 THEN {[c EXCEPT !.pods = <<c.pods[2]>>]} ELSE {})
      \cup (IF one /\ p = PLost /\ c.job = "active" THEN {[c EXCEPT !.pods = <<PUnsched>>]} ELSE {})
-     \cup (IF JobDel /\ c.job \in {"new", "active", "complete", "failed"} THEN {[c EXCEPT !.job = "gone"]} ELSE {})
+     \cup (IF JobDel /\ c.job \in {"new", "active", "idle", "complete", "failed"} THEN {[c EXCEPT !.job = "gone"]} ELSE {})
      \cup (IF c.job = "gone" /\ c.pods # <<>> THEN {[c EXCEPT !.pods = <<>>]} ELSE {})}
 
 Env(c) ==
@@ -463,8 +486,8 @@ FairRun == SpecRun /\ WF_vars(TickOK) /\ WF_vars(EnvAny)
 States == {"initialising", "waiting_on_resource", "running", "finished", "failed", "None"}
 TypeOK ==
   /\ last.k = "val" /\ last.st \in States /\ last.rs \in Reasons \cup {"none"} /\ last.rc \in {0 - 1, 0, 1, 128, 137, 143}
-  /\ pull \in (0 - 1)..PullBudget /\ errs \in 0..3 /\ archived \in 0..1 /\ Len(cl.pods) <= 2
-  /\ cl.job \in {"none", "new", "active", "complete", "failed", "other", "otherok", "gone"}
+  /\ pull \in (0 - 9)..PullBudget /\ errs \in 0..3 /\ archived \in 0..1 /\ Len(cl.pods) <= 2
+  /\ cl.job \in {"none", "new", "active", "idle", "complete", "failed", "other", "otherok", "gone"}
 
 \* exitReason / returncode are defined iff the task is not alive
 ResultIffDead == (IsAlive => (RetCode = 0 - 1 /\ ExitReason = "none")) /\ (~IsAlive => ExitReason \in Reasons)
@@ -516,6 +539,8 @@ OomIsResourceExhausted == (Final(last.st) /\ Len(cl.pods) = 1 /\ cl.pods[1] = Po
 RunningMeansPodRunning == last.st = "running" => \E i \in 1..Len(cl.pods) : cl.pods[i].ph \in {"Running", "Succeeded", "Failed", "Unknown"}
 GivingUpDeletes == (why \in {"outage", "errs3", "nodes"} /\ done) => cl.job = "gone"
 SomeoneIsKilled == last.rs # "Killed"
+NoVerdictFromConfusion == why # "errs3"
+NothingEscapesFromKill == obs.raised # "MaxRetryError"
 NeverNoneState == last.st # "None"
 
 \* action properties
@@ -531,14 +556,18 @@ ForwardOnly == [][Rank(last'.st) >= Rank(last.st)]_vars
 StrictlyForward == [][(last.st = "running") => last'.st # "waiting_on_resource"]_vars
 \* a step in which every request failed ends the task only through the documented limits
 OutageNeedsLimit == [][(~Final(last.st) /\ Final(last'.st) /\ why' = "outage") => age' # NoSince /\ age' + off' > OutageLimit]_vars
+\* the wish: an unreachable API ends the task only after the documented five minutes (deviation ConnOutageThreePolls)
+OutageNeedsMinutes == [][(~Final(last.st) /\ Final(last'.st) /\ why' \in {"outage", "errs3"}) => age' # NoSince /\ age' + off' > OutageLimit]_vars
 \* a kill step whose requests all succeed and that sees at most one pod deletes the job and ends the task
 KillWorks == [][(cnt'.kills = cnt.kills + 1 /\ cnt'.bad = cnt.bad /\ Len(cl.pods) <= 1 /\ obs'.raised \in {"none", "KeyboardInterrupt"})
                 => (~IsAlive' /\ cl'.job = "gone")]_vars
 \* the wish: every kill ends the task (deviation / finding KillLost)
 KillAlwaysWorks == [][(cnt'.kills = cnt.kills + 1) => ~IsAlive']_vars
 
+\* repaired code: a requested kill ends the task as soon as the API is healthy again
+KillLeadsToEnd == [](req => <>(~IsAlive))
 \* liveness (fair ticks with a healthy API, fair cluster): the task ends
-Ends == <>(~IsAlive \/ ~created)
+Ends == [](created => <>(~IsAlive))
 
 (***************************************************************************)
 (* part "map": _getTaskState as a function                                 *)
@@ -558,11 +587,11 @@ MapScripts(slice) ==
 
 InitMap ==
   /\ cl \in {[job |-> j, pods |-> ps, nd |-> 0, ok |-> FALSE, ran |-> FALSE] :
-             j \in {"new", "active", "complete", "failed", "other", "gone"}, ps \in PodLists(MapSlice)}
+             j \in {"new", "active", "idle", "complete", "failed", "other", "gone"}, ps \in PodLists(MapSlice)}
   /\ created = TRUE /\ conf = [gc |-> "none", archive |-> "none", cache |-> TRUE]
   /\ last \in {Waiting, Running} /\ started \in BOOLEAN /\ pull \in (IF MapSlice = "api" THEN {PullBudget} ELSE {PullBudget, 0, 0 - 1}) /\ errs = 0
   /\ age \in (IF MapSlice = "api" THEN {NoSince, 10, 70} ELSE {NoSince}) /\ off = 0
-  /\ cached = TRUE /\ closed = FALSE /\ done = FALSE /\ terminated = FALSE /\ called = FALSE /\ archived = 0 /\ ndel = 0 /\ why = "none"
+  /\ cached = TRUE /\ closed = FALSE /\ done = FALSE /\ terminated = FALSE /\ called = FALSE /\ req = FALSE /\ archived = 0 /\ ndel = 0 /\ why = "none"
   /\ obs = [calls |-> <<>>, raised |-> "none"] /\ cnt = [ticks |-> 0, kills |-> 0, bad |-> 0, mids |-> 0, peeks |-> 0]
   /\ case \in MapScripts(MapSlice) /\ res = <<>>
 
@@ -591,7 +620,7 @@ InitExit ==
   /\ cl = InitCl /\ created = TRUE /\ conf = [gc |-> "none", archive |-> "none", cache |-> TRUE]
   /\ last \in {T(st, rs, rc) : st \in States, rs \in Reasons \cup {"none"}, rc \in {0 - 1, 0, 1, 127, 128, 137}}
   /\ started = FALSE /\ pull = PullBudget /\ errs = 0 /\ age = NoSince /\ off = 0 /\ cached = FALSE
-  /\ closed \in BOOLEAN /\ done = FALSE /\ terminated \in BOOLEAN /\ called = FALSE /\ archived = 0 /\ ndel = 0 /\ why = "none"
+  /\ closed \in BOOLEAN /\ done = FALSE /\ terminated \in BOOLEAN /\ called = FALSE /\ req = FALSE /\ archived = 0 /\ ndel = 0 /\ why = "none"
   /\ obs = [calls |-> <<>>, raised |-> "none"] /\ cnt = [ticks |-> 0, kills |-> 0, bad |-> 0, mids |-> 0, peeks |-> 0]
   /\ case = <<>> /\ res = <<>>
 EmitExit == (Part = "exit" /\ Emit) =>
